@@ -506,3 +506,10 @@ _BM = ("bemock", ("drv_integrators", "plain"), G.gen_bemock)
 _add_tie("C09", [_F, _RM, _BM])
 _add_tie("C11", [_RM, _BM])
 _add_tie("C12", [_F, _J, _LU, _LS])
+
+
+# C07: the configured h_start reaches the integrator through the builder (assembled solvers, scenario "hstart")
+_c07_gen = PROPS["C07"].generate
+PROPS["C07"].family_driver = dict(PROPS["C07"].family_driver, **_slv_drv)
+PROPS["C07"].generate = lambda rng, tier: _c07_gen(rng, tier) + G.gen_slv_hstart(rng, tier)
+PROPS["C07"].rule += "; assembled solvers with h_start = time step on a slow reaction: one attempt, accepted"
